@@ -111,8 +111,10 @@ def cbcCs3Enc (legacy : Bool) (C : Cipher) (_w : Nat) (iv buf : Bytes) : Bytes :
   let blocks := chunks C.bs buf
   let tail := chunksTail C.bs buf
   let r := cbcEnc C iv blocks
-  if !legacy ∧ tail.length = 0 ∧ blocks.length = 1 then r.1.flatten
-  else if tail.length = 0 ∧ blocks.length > 1 then (swapLast2 r.1).flatten
+  if legacy then
+    if tail.length = 0 ∧ blocks.length > 1 then (swapLast2 r.1).flatten else cbcSteal C r.1 r.2 tail
+  else if tail.length = 0 then
+    (if blocks.length > 1 then (swapLast2 r.1).flatten else r.1.flatten)
   else cbcSteal C r.1 r.2 tail
 
 def cbcCs3Dec (legacy : Bool) (C : Cipher) (w : Nat) (iv buf : Bytes) : Bytes :=
@@ -184,16 +186,20 @@ def ecbCs3Enc (legacy : Bool) (C : Cipher) (w : Nat) (buf : Bytes) : Bytes :=
   let blocks := chunks C.bs buf
   let outs := ecbEnc C w blocks
   let tail := chunksTail C.bs buf
-  if !legacy ∧ tail.length = 0 ∧ blocks.length = 1 then outs.flatten
-  else if tail.length = 0 ∧ blocks.length > 1 then (swapLast2 outs).flatten
+  if legacy then
+    if tail.length = 0 ∧ blocks.length > 1 then (swapLast2 outs).flatten else ecbSteal C outs tail
+  else if tail.length = 0 then
+    (if blocks.length > 1 then (swapLast2 outs).flatten else outs.flatten)
   else ecbSteal C outs tail
 
 def ecbCs3Dec (legacy : Bool) (C : Cipher) (w : Nat) (buf : Bytes) : Bytes :=
   let blocks := chunks C.bs buf
   let outs := ecbDec C w blocks
   let tail := chunksTail C.bs buf
-  if !legacy ∧ tail.length = 0 ∧ blocks.length = 1 then outs.flatten
-  else if tail.length = 0 ∧ blocks.length > 1 then (swapLast2 outs).flatten
+  if legacy then
+    if tail.length = 0 ∧ blocks.length > 1 then (swapLast2 outs).flatten else ecbUnsteal C outs tail
+  else if tail.length = 0 then
+    (if blocks.length > 1 then (swapLast2 outs).flatten else outs.flatten)
   else ecbUnsteal C outs tail
 
 /-- the `len < bs` gate of every `encrypt_inout` / `decrypt_inout`: `none` = `Err(Error)`, buffer untouched -/
